@@ -454,3 +454,79 @@ impl<T: Modeled> Modeled for Twin<T> {
 		T::min_len()
 	}
 }
+
+/// A struct whose only field is skipped: empty encoding, non-zero size (finding F4).
+#[derive(Encode, Decode, DecodeWithMemTracking, PartialEq, Debug, Clone, Default)]
+pub struct AllSkipped {
+	#[codec(skip)]
+	pub x: u64,
+}
+impl Modeled for AllSkipped {
+	fn ty(d: usize) -> String {
+		"tup 0".into()
+	}
+	fn val(&self, out: &mut String, c: bool) {
+		out.push_str("L 0");
+	}
+	fn gen(g: &mut G) -> Self {
+		AllSkipped { x: 0 }
+	}
+	fn min_len() -> usize {
+		0
+	}
+}
+
+/// `repr(transparent)` newtypes whose field carries a wire-format attribute: the derive must NOT
+/// take the in-place `decode_into` shortcut for these (reached through Box/Rc/Arc/arrays).
+#[derive(Encode, Decode, DecodeWithMemTracking, MaxEncodedLen, PartialEq, Debug, Clone)]
+#[repr(transparent)]
+pub struct TransCompact(#[codec(compact)] pub u64);
+impl Modeled for TransCompact {
+	fn ty(d: usize) -> String {
+		"adt struct 1 c u64".into()
+	}
+	fn val(&self, out: &mut String, c: bool) {
+		write!(out, "L 1 n{}", self.0).unwrap();
+	}
+	fn gen(g: &mut G) -> Self {
+		TransCompact(u64::gen(g))
+	}
+	fn min_len() -> usize {
+		1
+	}
+}
+#[derive(Encode, Decode, DecodeWithMemTracking, PartialEq, Debug, Clone)]
+#[repr(transparent)]
+pub struct TransEncodedAs(#[codec(encoded_as = "<u32 as parity_scale_codec::HasCompact>::Type")] pub u32);
+impl Modeled for TransEncodedAs {
+	fn ty(d: usize) -> String {
+		"adt struct 1 a c 4 u32".into()
+	}
+	fn val(&self, out: &mut String, c: bool) {
+		write!(out, "L 1 n{}", self.0).unwrap();
+	}
+	fn gen(g: &mut G) -> Self {
+		TransEncodedAs(u32::gen(g))
+	}
+	fn min_len() -> usize {
+		1
+	}
+}
+/// transparent with a skipped zero-sized field next to the real one
+#[derive(Encode, Decode, DecodeWithMemTracking, PartialEq, Debug, Clone)]
+#[repr(transparent)]
+pub struct TransSkip(pub u16, #[codec(skip)] pub core::marker::PhantomData<u8>);
+impl Modeled for TransSkip {
+	fn ty(d: usize) -> String {
+		"adt struct 2 p u16 s unit".into()
+	}
+	fn val(&self, out: &mut String, c: bool) {
+		write!(out, "L 1 n{}", self.0).unwrap();
+	}
+	fn gen(g: &mut G) -> Self {
+		TransSkip(u16::gen(g), core::marker::PhantomData)
+	}
+	fn min_len() -> usize {
+		2
+	}
+}
